@@ -394,7 +394,9 @@ func runReal(c Case, dir string) error {
 	for _, k := range envKeys {
 		eparts = append(eparts, fmt.Sprintf(`%s=${%s:-unset}`, k, k))
 	}
-	cmd := fmt.Sprintf(`printf '%%s\n' "ID={{ index . "stage_id" }} ENV:%s VARS:%s PWD=$(pwd -P)" >> %s`, strings.Join(eparts, ","), strings.Join(vparts, ","), trace)
+	// tmpl is a task variable whose value is itself a template over va: it must be rendered with the
+	// values of the current execution every time
+	cmd := fmt.Sprintf(`printf '%%s\n' "ID={{ index . "stage_id" }} ENV:%s VARS:%s TMPL={{ .tmpl }} PWD=$(pwd -P)" >> %s`, strings.Join(eparts, ","), strings.Join(vparts, ","), trace)
 	mk := func(d string) string {
 		p := filepath.Join(dir, d)
 		os.MkdirAll(p, 0o755)
@@ -403,7 +405,8 @@ func runReal(c Case, dir string) error {
 	base := task.FromCommands(cmd)
 	base.Name = "shared"
 	base.Dir = "{{ .wd }}"
-	taskVars := overlay(c.TaskVars, map[string]string{"stage_id": "direct", "wd": mk("wd_task")})
+	taskVars := overlay(c.TaskVars, map[string]string{"stage_id": "direct", "wd": mk("wd_task"),
+		"tmpl": `T({{ if index . "va" }}{{ index . "va" }}{{ else }}unset{{ end }})`})
 	base.Env = variables.FromMap(c.TaskEnv)
 	base.Variables = variables.FromMap(taskVars)
 	r, err := runner.NewTaskRunner()
@@ -458,7 +461,11 @@ func runReal(c Case, dir string) error {
 		}
 	}
 	want := func(env, vars map[string]string, wd string) string {
-		return fmt.Sprintf("ENV:%s VARS:%s PWD=%s", dump(env, envKeys), dump(vars, varKeys), wd)
+		va, ok := vars["va"]
+		if !ok {
+			va = "unset"
+		}
+		return fmt.Sprintf("ENV:%s VARS:%s TMPL=T(%s) PWD=%s", dump(env, envKeys), dump(vars, varKeys), va, wd)
 	}
 	all := append(append([]Stage{}, c.P1...), c.P2...)
 	for _, st := range all {
